@@ -11,7 +11,7 @@ CHECK_FN = 'check_cases "C20"'
 MISMATCH_IS_VIOLATION = False
 RULE = ec.ENG_RULE + "non-trivial = the main answer is non-empty; distinct = distinct (database, query, options)"
 TRUSTED = ["oracles fed to the model from the real code for each case: bm25IDF values (math.Log), the NLP analysis of the query and per-document NLP "
-           "multipliers, the TF-IDF ranking, raw sahilm/fuzzy scores", "correspondence harness", "PrimFloat = Go float64 on amd64 (no FMA fusion)"]
+           "multipliers, the TF-IDF tokenizer output and math.Log table (the ranking itself is computed by Model/Tfidf.v and compared), raw sahilm/fuzzy scores", "correspondence harness", "PrimFloat = Go float64 on amd64 (no FMA fusion)"]
 ASSUMPTIONS = ["platform tags are ASCII (EqualFold modelled by ASCII folding)"]
 coq_case = ec.cecase
 preamble = ec.eng_preamble
@@ -28,5 +28,5 @@ def finding_key(c, r):
     return None
 
 LEVEL_TEXT = 'Theorems (Props/C20.v): the tokenizer ignores ASCII letter case; two queries with the same lower-casing get the same answer from the index/NLP pipeline. Tied by the engine correspondence, where every case is also run with a randomly re-cased query and must give the bit-identical answer (all paths incl. typo fallback and NLP).'
-LEVEL_NOTE = 'Partial: the NLP analysis, TF-IDF ranking and fuzzy matcher are oracles computed from the query by un-modelled code; their case-invariance is compared per case, not proved. CLI whitespace normal form: C14. Trusted: Coq kernel; harness.'
+LEVEL_NOTE = 'Partial: the NLP analysis, the TF-IDF tokenizer (Unicode classes) and the fuzzy matcher are oracles computed from the query by un-modelled code; their case-invariance is compared per case, not proved. CLI whitespace normal form: C14. Trusted: Coq kernel; harness.'
 TECHNIQUE = "Coq proof over the engine model + differential correspondence (vm_compute, bit-exact scores)"
